@@ -37,17 +37,26 @@ NOT_DRIVEN = {
 }
 PROCESS_WIDE = ('load_types_for_deserialization',)      # + dynamic_evaluate with pt=false
 DRIVEN = FLAGS + ['str_format', 'repr_format', 'permission', 'contextual_override', 'context',
-                  'view_options', 'preset_args', 'detour', 'apply_wrappers',
+                  'view_options', 'view', 'preset_args', 'detour', 'apply_wrappers',
                   'load_types_for_deserialization', 'timeit', 'dynamic_evaluate', 'Functor.__call__']
 KIND = {
     'str_format': 'argScope', 'repr_format': 'argScope', 'permission': 'outermostWins',
     'contextual_override': 'cascadeMap', 'context': 'stack:update', 'view_options': 'stack:deepMerge',
+    'view': 'stack:deepMerge',
     'preset_args': 'stack:preset', 'detour': 'stack:detour', 'apply_wrappers': 'stack:detour',
     'load_types_for_deserialization': 'stack:update', 'timeit': 'enterExit',
     'dynamic_evaluate': 'dynEval', 'Functor.__call__': 'frameScope',
 }
 for _f in FLAGS:
   KIND[_f] = 'valueScope'
+
+
+# managers that write the same cell (the inner one derives from what the outer one pushed)
+CELL = {n: n for n in DRIVEN}
+CELL['apply_wrappers'] = 'detour'
+CELL['view'] = 'view_options'
+# public actions on the manager object of the innermost enclosing block of that manager
+ACTIONS = {'timeit': ['end', 'status'], 'contextual_override': ['wrapped_probe']}
 
 
 class UserError(Exception):
@@ -165,6 +174,18 @@ class Lib:
 
     self.Probe = Probe
     self.tls = threading.local()
+    self.overrides = {}
+    from pyglove.core.views import base as views_base
+
+    class ProbeView(views_base.View):
+      VIEW_ID = 'c17-probe'
+
+      def render(self, value, *, name=None, root_path=None, **kwargs):
+        del value, name, root_path, kwargs
+        lib.tls.body()
+        return 'rendered'
+
+    self.ProbeView = ProbeView
 
   # -- canonical values ---------------------------------------------------------------------
   @staticmethod
@@ -176,7 +197,30 @@ class Lib:
   def val(self, v):
     if isinstance(v, dict):
       return {'d': {k: self.atom(x) for k, x in sorted(v.items())}}
+    if isinstance(v, (list, tuple)):
+      return {'l': [self.atom(x) for x in v]}
     return self.atom(v)
+
+  def pyval(self, v):
+    """A fresh mutable Python object for an argument value of a case."""
+    if isinstance(v, dict):
+      if 'd' in v:
+        return dict(v['d'])
+      if 'l' in v:
+        return list(v['l'])
+      if 'o' in v:
+        return self.override(*v['o'])
+    return v
+
+  def override(self, value, cascade, override_attrs):
+    """ContextualOverride objects are re-used across scopes (explicit marker objects)."""
+    key = (repr(value), cascade, override_attrs)
+    if key not in self.overrides:
+      self.overrides[key] = self.contextual.ContextualOverride(value, cascade, override_attrs)
+    return self.overrides[key]
+
+  def pykw(self, kw):
+    return {k: self.pyval(v) for k, v in kw.items()}
 
   def frame(self, d):
     return {'f': {k: self.val(v) for k, v in sorted(d.items())}}
@@ -190,18 +234,17 @@ class Lib:
     if name in FLAGS:
       return getattr(pg, name)(a)
     if name == 'str_format':
-      return pg.str_format(**kw)
+      return pg.str_format(**self.pykw(kw))
     if name == 'repr_format':
-      return pg.repr_format(**kw)
+      return pg.repr_format(**self.pykw(kw))
     if name == 'permission':
       return self.coding.permission(self.coding.CodePermission(a))
     if name == 'contextual_override':
-      return pg.contextual_override(**{
-          k: self.contextual.ContextualOverride(v['o'][0], v['o'][1], v['o'][2]) for k, v in kw.items()})
+      return pg.contextual_override(**self.pykw(kw))
     if name == 'context':
-      return self.coding.context(**kw)
+      return self.coding.context(**self.pykw(kw))
     if name == 'view_options':
-      return pg.view_options(**{k: (dict(v['d']) if isinstance(v, dict) else v) for k, v in kw.items()})
+      return pg.view_options(**self.pykw(kw))
     if name == 'preset_args':
       return self.callable_ext.preset_args(dict(kw), preset_name=arg.get('name', 'global'),
                                            inherit_preset=arg.get('inh', False))
@@ -212,7 +255,21 @@ class Lib:
     if name == 'load_types_for_deserialization':
       return pg.JSONConvertible.load_types_for_deserialization(*[self.types[k] for k in kw])
     if name == 'timeit':
-      return pg.timeit(a)
+      # a TimeIt object is re-used when the same name comes back and the object is not active
+      cache = self.tls.timeits
+      t = cache.get(a)
+
+      def reaches_active(x, seen):
+        # re-using x below one of its own descendants would make the child lists cyclic
+        # (status() then recurses for ever) — child bookkeeping is not a scoped setting
+        if id(x) in seen:
+          return False
+        seen.add(id(x))
+        return any(x is y for y in self.tls.timeit_active) or any(reaches_active(c, seen) for c in x.children)
+      if t is None or reaches_active(t, set()):
+        t = pg.timeit(a)
+        cache[a] = t
+      return t
     if name == 'dynamic_evaluate':
       return self.hyper.dynamic_evaluate(self.fns[a], per_thread=arg.get('pt', True))
     raise AssertionError(name)
@@ -249,7 +306,7 @@ class Lib:
       return {'f': out}
     if name == 'context':
       return self.frame(self.coding.get_context())
-    if name == 'view_options':
+    if name in ('view_options', 'view'):
       with pg.view_options() as o:
         return self.frame(dict(o))
     if name == 'preset_args':
@@ -295,7 +352,8 @@ class Lib:
     if name == 'allow_writable_accessors':
       with pg.as_sealed(False):
         return self._behaviour(name)
-    if name == 'allow_partial':
+    if name in ('allow_partial', 'dynamic_evaluate'):
+      # (pg.oneof() under enable_type_check(False) raises AttributeError: defaults are not filled in)
       with pg.as_sealed(False), pg.allow_writable_accessors(True), pg.enable_type_check(True):
         return self._behaviour(name)
     with pg.as_sealed(False), pg.allow_writable_accessors(True):
@@ -344,6 +402,9 @@ class Lib:
       return {'clone_has_origin': self.tls.unsealed.clone().sym_origin is not None}
     if name == 'auto_call_functors':
       return {'called': self.addf(1, 2) == 3}
+    if name == 'dynamic_evaluate':
+      v = pg.oneof([1, 2])
+      return {'oneof': v if isinstance(v, str) else 'hyper'}
     return None
 
   def fresh_thread_objects(self):
@@ -353,6 +414,8 @@ class Lib:
     self.tls.acc_w = pg.Dict(a=1, accessor_writable=True)
     self.tls.acc_nw = pg.Dict(a=1, accessor_writable=False)
     self.tls.functor = self.Probe(SENTINEL, SENTINEL, override_args=True)
+    self.tls.timeits = {}
+    self.tls.timeit_active = []
     self.tls.onchange = self.OnChange(x=1)
     self.tls.typed = pg.Dict(x=1, value_spec=pg.typing.Dict([('x', pg.typing.Int())]))
 
@@ -403,6 +466,7 @@ class Runner:
     self.obs = []
     self.blocks = []      # per scope: getter snapshots before / after
     self.depth_stack = []
+    self.timeit_blocks = []
 
   def snapshot(self):
     return {m: self.lib.get(m) for m in self.managers}
@@ -429,6 +493,9 @@ class Runner:
     if op == 'probe':
       self.obs.append([p[1], self.lib.get(p[1]), self.lib.behaviour(p[1])])
       return
+    if op == 'act':
+      self.act(p[1], p[2])
+      return
     if op == 'scope':
       name, arg, body = p[1], p[2], p[3]
       before = self.snapshot()
@@ -437,7 +504,7 @@ class Runner:
       self.blocks.append(rec)
       self.depth_stack.append((name, arg))
       try:
-        if name == 'Functor.__call__':
+        if name in ('Functor.__call__', 'view'):
           lib = self.lib
           prev = getattr(lib.tls, 'body', None)
 
@@ -448,11 +515,33 @@ class Runner:
           lib.tls.body = body_fn
           try:
             kw = arg.get('kw') or {}
-            # positional call: with type checking switched off, Functor.__call__ rejects *keyword*
-            # overrides ("unexpected keyword argument"), which is not this property's business
-            lib.tls.functor(*[kw[k] for k in ('x', 'y') if k in kw])
+            if name == 'view':
+              # an inner render: pg.view() opens its own view_options scope around View.render
+              lib.pg.view(object(), view_id='c17-probe', **lib.pykw(kw))
+            else:
+              # positional call: with type checking switched off, Functor.__call__ rejects *keyword*
+              # overrides ("unexpected keyword argument"), which is not this property's business
+              lib.tls.functor(*[kw[k] for k in ('x', 'y') if k in kw])
           finally:
             lib.tls.body = prev
+        elif name == 'timeit':
+          cm = self.lib.enter(name, arg)
+          self.lib.tls.timeit_active.append(cm)
+          rec['timeit_index'] = len(self.blocks) - 1
+          rec['timeit_parent'] = self.timeit_blocks[-1] if self.timeit_blocks else None
+          self.timeit_blocks.append(rec['timeit_index'])
+          try:
+            with cm:
+              rec['entered'] = True
+              rec['inside'] = self.lib.get(name)
+              self.run(body)
+          finally:
+            self.timeit_blocks.pop()
+            self.lib.tls.timeit_active.pop()
+            try:
+              rec['status_keys'] = sorted(cm.status().keys())     # public: nested scopes as 'outer.inner'
+            except RecursionError:
+              rec['status_keys'] = None
         else:
           with self.lib.enter(name, arg):
             rec['entered'] = True
@@ -467,6 +556,34 @@ class Runner:
         rec['after'] = self.snapshot()
       return
     raise AssertionError(op)
+
+
+def _act(self, name, action):
+  """A public action on the manager object of the innermost enclosing block of `name`."""
+  lib = self.lib
+  if name == 'timeit':
+    if not lib.tls.timeit_active:
+      return
+    t = lib.tls.timeit_active[-1]
+    if action == 'end':
+      t.end()                    # public: ends the timer early; the block is still open
+    elif action == 'status':
+      t.status()
+      _ = t.elapse
+    return
+  if name == 'contextual_override' and action == 'wrapped_probe':
+    # explicit propagation: the wrapper carries the current overrides into another thread
+    box = []
+    fn = lib.pg.with_contextual_override(lambda: box.append(lib.get(name)))
+    th = threading.Thread(target=fn)
+    th.start()
+    th.join(10)
+    self.obs.append([name, box[0] if box else 'no-result', None])
+    return
+  raise AssertionError((name, action))
+
+
+Runner.act = _act
 
 
 def run_threads(lib, case, managers):
@@ -531,6 +648,16 @@ def spec_inside(name, outer, arg, enclosing=None):
     f = dict(outer['f'])
     f.update(kw)
     return ('v', {'f': dict(sorted(f.items()))})      # merged kwargs, inner keys override
+  if kind == 'stack:deepMerge':
+    f = dict(outer['f'])
+    for k, v in kw.items():
+      if isinstance(v, dict) and 'd' in v and isinstance(f.get(k), dict) and 'd' in f[k]:
+        d = dict(f[k]['d'])
+        d.update(v['d'])
+        f[k] = {'d': dict(sorted(d.items()))}          # nested dicts are merged key by key
+      else:
+        f[k] = v                                       # anything else is replaced
+    return ('v', {'f': dict(sorted(f.items()))})
   if kind == 'frameScope':
     return ('v', {'f': dict(sorted(kw.items()))})
   if kind == 'cascadeMap':
@@ -566,6 +693,15 @@ KW_KEYS = ['compact', 'verbose', 'k1', 'k2']
 ATOMS = [None, True, False, 0, 1, 7, 'a', 'b']
 
 
+def gen_val(rng, nested=0.35):
+  """Atom, or (mutable) nested dict / list whose in-place modification would leak into the parent."""
+  if rng.chance(nested):
+    if rng.chance(0.6):
+      return {'d': {y: rng.choice(ATOMS) for y in rng.sample(['p', 'q', 'r'], rng.randint(0, 3))}}
+    return {'l': [rng.choice(ATOMS) for _ in range(rng.randint(0, 3))]}
+  return rng.choice(ATOMS)
+
+
 def gen_arg(rng, name):
   k = KIND[name]
   if name in FLAGS:
@@ -575,17 +711,22 @@ def gen_arg(rng, name):
     return {'a': rng.choice(dom)}
   if k in ('argScope', 'stack:update') and name != 'load_types_for_deserialization':
     keys = rng.sample(KW_KEYS, rng.randint(0, 3))
-    return {'kw': {x: rng.choice(ATOMS) for x in keys}}
+    return {'kw': {x: gen_val(rng) for x in keys}}
   if name == 'permission':
     return {'a': rng.choice([0, 1, 3, 8, 255, 2, 17])}
   if name == 'contextual_override':
     keys = rng.sample(['cx', 'cy', 'cz'], rng.randint(0, 2))
     return {'kw': {x: {'o': [rng.choice(ATOMS), rng.chance(0.4), rng.chance(0.3)]} for x in keys}}
-  if name == 'view_options':
+  if name in ('view_options', 'view'):
+    # utils.merge treats a dict merged over a *list* as a patch by integer index (KeyError otherwise):
+    # outside the model, so a key holds atoms/dicts (o1, o3) or atoms/lists (o2), never both kinds.
     kw = {}
     for x in rng.sample(['o1', 'o2', 'o3'], rng.randint(0, 3)):
-      if rng.chance(0.5):
-        kw[x] = {'d': {y: rng.choice(ATOMS) for y in rng.sample(['p', 'q', 'r'], rng.randint(0, 2))}}
+      if rng.chance(0.55):
+        if x == 'o2':
+          kw[x] = {'l': [rng.choice(ATOMS) for _ in range(rng.randint(0, 3))]}
+        else:
+          kw[x] = {'d': {y: rng.choice(ATOMS) for y in rng.sample(['p', 'q', 'r'], rng.randint(0, 3))}}
       else:
         kw[x] = rng.choice(ATOMS)
     return {'kw': kw}
@@ -662,9 +803,14 @@ class ProgGen:
 
   def leaf(self, focus):
     r = self.rng
-    k = r.weighted([(7, 'probe'), (2, 'raise'), (1, 'skip'), (3 if self.sync else 0, 'sync')])
+    acts = [m for m in self.open if m in ACTIONS]
+    k = r.weighted([(7, 'probe'), (2, 'raise'), (1, 'skip'), (3 if self.sync else 0, 'sync'),
+                    (5 if acts else 0, 'act')])
     if k == 'probe':
       return ['probe', self.pick_probe(focus)]
+    if k == 'act':
+      m = r.choice(acts)
+      return ['act', m, r.choice(ACTIONS[m])]
     return [k]
 
 
@@ -705,7 +851,11 @@ class C17(Prop):
   translators = [t_c17.run]
   case_timeout_s = 40
   jobs_quick = 6
-  rule = ('well-nested programs skip/seq/scope/raise/try/probe over the 20 driven managers of the T-SCOPE '
+  rule = ('well-nested programs skip/seq/scope/raise/try/probe/act over the 21 driven managers of the T-SCOPE '
+          'registry (act = a public action on the manager object of the enclosing block: TimeIt.end()/status(), '
+          'pg.with_contextual_override wrapper called from a new thread; pg.view() inner renders are a manager; '
+          'TimeIt and ContextualOverride objects are re-used; kwargs carry mutable nested dict / list values); '
+          'formerly: '
           'registry, scope depth <= 6, arguments from each manager\'s domain (None where accepted), exceptions '
           'raised at arbitrary leaves and caught at arbitrary levels; three streams: mixed managers, '
           'focused (2-3 managers nested in every order), two-thread programs with baton hand-offs at '
@@ -876,6 +1026,18 @@ class C17(Prop):
             return {'signature': 'not-effective:%s' % m,
                     'what': 'thread %d: inside `with %s(%s)` the getter gives %s; documented nesting rule over the '
                             'outer value %s gives %s' % (tid, m, json.dumps(b['arg']), b['inside'], b['before'][m], exp[1])}
+    # timing scopes: a scope entered inside another one is registered under it ('outer.inner' in
+    # the public status() of the outer scope) — the nesting rule of pg.timeit
+    for tid, blocks in enumerate(out['blocks']):
+      for b in blocks:
+        if b['mgr'] == 'timeit' and b.get('entered') and b.get('timeit_parent') is not None:
+          par = blocks[b['timeit_parent']]
+          keys = par.get('status_keys')
+          want = '%s.%s' % (par['arg']['a'], b['arg']['a'])
+          if keys is not None and want not in keys:
+            return {'signature': 'timeit-child-not-registered',
+                    'what': 'thread %d: pg.timeit(%r) entered inside pg.timeit(%r), but status() of the outer scope '
+                            'has no key %r: %s' % (tid, b['arg']['a'], par['arg']['a'], want, keys)}
     # a thread that starts while another one is inside scopes sees the same defaults as the first
     t0 = out['model']['threads'][0]['before']
     for tid, t in enumerate(out['model']['threads'][1:], 1):
@@ -919,7 +1081,7 @@ class C17(Prop):
     def cur(env, name):
       v = ('v', defaults[name])
       for m, arg in env:
-        if m == name or (KIND[m] == 'stack:detour' and KIND[name] == 'stack:detour'):
+        if CELL[m] == CELL[name]:
           if v is None:
             return None
           v = spec_inside(m, v[1], arg)
@@ -941,6 +1103,9 @@ class C17(Prop):
           pass
       elif op == 'probe':
         out.append((p[1], cur(env, p[1])))
+      elif op == 'act':
+        if p[2] == 'wrapped_probe':
+          out.append((p[1], cur(env, p[1])))
       elif op == 'scope':
         go(p[3], env + [(p[1], p[2])])
     try:
@@ -1008,7 +1173,7 @@ class C17(Prop):
       yield p[3]
       for c in self._shrink_prog(p[3]):
         yield ['scope', p[1], p[2], c]
-    elif op in ('probe', 'raise', 'sync'):
+    elif op in ('probe', 'raise', 'sync', 'act'):
       yield ['skip']
 
   # -- translator cross-check ---------------------------------------------------------------
